@@ -83,6 +83,7 @@ class FnSpec:
         self.attrs = []
         self.mutself = False
         self.canary_inplace = False
+        self.binds = []   # (NAME, regex with one group): names of locals taken from the source text
         self.key = None
         self.src_span = None
         self.gen_span = None
@@ -206,6 +207,15 @@ class Unit:
                 f, name = [x.strip() for x in s[len('//@type '):].split('|')]
                 self.emit_type(gen, f, name)
                 i += 1
+            elif s.startswith('//@const '):
+                f, name = [x.strip() for x in s[len('//@const '):].split('|')]
+                text, mask = self.src(f)
+                ms = [m for m in find_code(text, mask, r'(?m)^(?:pub(?:\([a-z]+\))?\s+)?const\s+' + re.escape(name) + r'\s*:[^;]*;')]
+                if len(ms) != 1:
+                    raise Undecided('lost anchor: const %s in %s (%d matches)' % (name, f, len(ms)))
+                gen.lines.append('// ---- extracted const %s from %s:%d' % (name, f, line_of(text, ms[0].start())))
+                gen.lines.append(re.sub(r'^pub\([a-z]+\)', 'pub', ms[0].group(0)))
+                i += 1
             elif s.startswith('//@@ '):
                 # named clause in hand-written text: applies to the next line
                 rest = s[len('//@@ '):]
@@ -258,6 +268,9 @@ class Unit:
                 spec.attrs.append(rest); cur = None
             elif word == 'mutself':
                 spec.mutself = True; cur = None
+            elif word == 'bind':
+                nm, rx = rest.split(None, 1)
+                spec.binds.append((nm, re.compile(rx.strip(), re.S))); cur = None
             elif word == 'canary':
                 spec.canary_inplace = (rest.strip() == 'inplace'); cur = None
             elif word == 'ret':
@@ -457,6 +470,29 @@ class Unit:
             cl_in_body = self.closures_in(text, mask, bopen + 1, bclose)
         body_src = text[bopen:bclose + 1]
         src_first, src_last = line_of(text, bopen if sig is None else fn['start']), line_of(text, bclose)
+        if spec.binds:
+            # names of locals are read from the source so that a renamed local does not lose the contract
+            env = {}
+            for nm, rx in spec.binds:
+                mm = rx.search(body_src)
+                if not mm:
+                    raise Undecided('lost anchor: cannot bind %s in %s' % (nm, spec.key))
+                env[nm] = mm.group(1)
+            def sub(txt):
+                for nm, val in env.items():
+                    txt = txt.replace('${%s}' % nm, val)
+                return txt
+            for c in spec.requires + spec.ensures:
+                c.text = sub(c.text)
+            spec.start = [sub(x) for x in spec.start]
+            spec.anchors = [(w, sub(a), [sub(x) for x in ls_]) for (w, a, ls_) in spec.anchors]
+            for ls in spec.loops.values():
+                for c in ls.inv + ls.inv_except_break + ls.ensures:
+                    c.text = sub(c.text)
+                ls.body_start = [sub(x) for x in ls.body_start]
+                ls.after = [sub(x) for x in ls.after]
+                ls.hoisted = [sub(x) for x in ls.hoisted]
+                ls.decreases = [sub(x) for x in ls.decreases]
         spec.src_span = (f, src_first, src_last)
 
         # ---- body edits on the original text (positions relative to bopen) ----
